@@ -66,7 +66,7 @@ def instances(tier, prop):
     quick = tier == "quick"
     for ens in ("plus", "minus", "minus_lm1"):
         for Lo in ((3, 4) if quick else (3, 4, 5)):
-            for mode in ("plain", "ld", "allowmax"):
+            for mode in ("plain", "re", "ld", "allowmax"):
                 for kick in (False, True):
                     Mmax = 5 if (quick or Lo == 5 or ens != "plus") else 6
                     if not quick and Lo == 5 and (kick or mode != "plain") and ens != "plus":
@@ -199,7 +199,9 @@ def _sh(ctx, sh):
     M = ctx.int("maxlength", 3, Mmax)
     old_orders = [ctx.real(f"o{i}") for i in range(Lo)]
     _assume_valid_old(ctx, old_orders, intf, start)
-    old = mk_path(old_orders, maxlen=M, generated=("ld" if mode == "ld" else "sh", 0.0, 0, 0), path_number=7)
+    # 're' = a path restored by a restart (load_paths_from_disk tags it so): the acceptance rule applies to it like to any
+    # generated path; only a freshly loaded initial path ('ld') is exempt
+    old = mk_path(old_orders, maxlen=M, generated=({"ld": "ld", "re": "re"}.get(mode, "sh"), 0.0, 0, 0), path_number=7)
     old.time_origin = 0
     rng = InvRng(ctx)
     tis_set = {"maxlength": M, "allowmaxlength": mode == "allowmax", "lambda_minus_one": False, "quantis": False}
@@ -270,8 +272,8 @@ def _sh(ctx, sh):
         return None, None
     kb, sb = natural(1)
     kf, sf = natural(2)
-    if mode == "plain":
-        ctx.check(ndraw == 1, "C09:one-draw-for-length", f"{ndraw}")
+    if mode in ("plain", "re"):
+        ctx.check(ndraw == 1, "C09:one-draw-for-length", f"{ndraw} (mode {mode})")
     else:
         ctx.check(ndraw == 0, "C09:no-length-draw-for-ld/allowmaxlength", f"{ndraw}")
     if kb is None or kf is None:
@@ -284,7 +286,7 @@ def _sh(ctx, sh):
         ctx.check(not accept, "C09:accept-implies-natural-trial-valid", why)
         return
     ctx.cover("sh:premise-true")
-    if mode == "plain":
+    if mode in ("plain", "re"):
         x = [d for d in rng.draws if d[0] == "random"][0][1]
         inv = 1 / x  # = the symbolic x > 1
         spec = (Ln - 2) <= (Lo - 2) * inv
